@@ -78,7 +78,7 @@ def run_case(case):
     cov = {'config': {}}
     viol = []
     nres = rng.choice([1, 2, 3, 4, 5])
-    sizes = (0, 1, 3, 100, 101, 1500) if rng.random() < 0.15 else (0, 1, 3, 20, 100, 101)
+    sizes = (0, 1, 3, 100, 101, 999, 1000, 1001, 1500, 2001) if rng.random() < 0.15 else (0, 1, 3, 20, 100, 101)
     if case.get('big'):
         nres, sizes = 2, (10300,)
     names, fields, tables = make_pkg(rng, nres, sizes, same_schema=(fam == 'duplicate_alias'))
